@@ -2,8 +2,8 @@
 """Robustness sweep: behaviour-preserving rewrites must not raise alarms.
 
 For every service module an in-memory variant is produced in which every
-local variable of every function is renamed (consistently, closures
-included) and the source is re-emitted by ast.unparse (layout and comments
+local variable of every function is renamed to an opaque name (v<N>_rn,
+consistently, closures included) and the source is re-emitted by ast.unparse (layout and comments
 change).  All rule modules are run on the variant; any obligation that fails
 on the variant but not on the real tree is a false alarm of the checker.
 
@@ -94,8 +94,8 @@ def rename_locals(tree):
             if nm in params or nm in glob or nm in nested_names or \
                     nm in imported or nm.startswith('__'):
                 continue
-            mine[nm] = nm + SUFFIX
             count += 1
+            mine[nm] = 'v%d%s' % (count, SUFFIX)
         # visible renames: inherited ones not shadowed here + mine
         visible = {k: v for k, v in inherited.items() if k not in bound}
         visible.update(mine)
